@@ -53,7 +53,7 @@ def run_parser(I, boundary, body, buffer_size, M, P):
     return None, fields, fl
 
 
-def body_parser_limits(I, X, framing="CRLF", shape=("field",), n=2, buffer_size=16, use_M=True, use_P=True, pad=0):
+def body_parser_limits(I, X, framing="CRLF", shape=("field",), n=2, buffer_size=16, use_M=True, use_P=True, pad=0, tail_pad=0):
     boundary = b"b"
     K = NL[framing]
     payload = X.bytes("payload", n, minlen=n)
@@ -72,7 +72,8 @@ def body_parser_limits(I, X, framing="CRLF", shape=("field",), n=2, buffer_size=
     X.assume(pnot(pcontains(pconcat(payload, K), b"--" + boundary)))
     payloads = []
     for i, kind in enumerate(shape):
-        payloads.append((kind, payload if i == 0 else b"xy"))
+        # (tail_pad: the later parts are long too -- a long field right after a file part)
+        payloads.append((kind, payload if i == 0 else (b"xy" if not tail_pad else b"t" * tail_pad)))
     body = make_body(K, boundary, payloads)
     total = plen(body)
     if buffer_size <= 0:
@@ -372,6 +373,14 @@ def obligations(tier, seed):
                     "params": {"framing": "CRLF", "shape": list(shape), "n": 1, "buffer_size": bs, "use_M": True, "use_P": False, "pad": pad},
                     "opts": {"budget_s": 900, "ctx": {"loop_bound": 1000}},
                 })
+    for shape in [("file", "field"), ("file", "field", "field"), ("field", "file", "field")]:
+        for bs in ([16] if quick else [7, 16, 48]):
+            out.append({
+                "name": f"parser_limits_long_field[{'+'.join(shape)},tail_pad=70,bs={bs}]",
+                "body": "body_parser_limits",
+                "params": {"framing": "CRLF", "shape": list(shape), "n": 1, "buffer_size": bs, "use_M": True, "use_P": False, "pad": 0, "tail_pad": 70},
+                "opts": {"budget_s": 900, "ctx": {"loop_bound": 1000}},
+            })
     for framing in ["CRLF"] if quick else ["CRLF", "LF", "CR"]:
         for nparts in (1, 2, 3):
             for n in ([0, 3] if quick else [0, 2, 4]):
